@@ -4,6 +4,10 @@ import json, os
 V = os.path.dirname(os.path.dirname(os.path.abspath(__file__)))
 
 CLAIMS = {
+ "C20": dict(
+   text="The model returns Except Panic at every point where the Rust code can panic. Theorems: float-valued properties never panic in value_at/update for any position, hint or override (generic in the number system); integer properties do not panic inside a segment for every non-overshooting built-in easing with in-range end values (C13 range + C14 checked conversion); advance(dt) converts without panic for every non-negative dt below the u64-seconds clock limit; every repeat count incl. u32::MAX has a position in [0,1] at every time; kernel-evaluated binary32 table at the boundary repeat counts (0, 1, 2^24±1, 2^31, 2^32−2, 2^32−1). Correspondence: every suite runs against debug (overflow checks on) and release builds, outputs must be identical to each other and to the profile-independent model; dedicated extreme-value suite (subnormal/huge durations and delays, times to f32::MAX, ±1–2 ulp at every phase boundary) with no-panic / finite-output oracles on the implementation.",
+   note="Partial where the truth lives in the toolchain: FMA contraction, x87, optimiser-dependent float behaviour cannot be exhibited by the model — only the two-profile run on this machine covers them. F-C20a fixed (f18722c); F-C20b (overshooting easing × integer property at bounds) recorded as documented behaviour.",
+   technique="Lean 4 theorems (Except-typed model: where panics cannot occur) + decide +kernel Float32 table + two-profile bit-exact correspondence on extreme inputs", design="§7 C20"),
  "C04": dict(
    text="Theorems, generic in the number system, by induction over arbitrary advance/set_state histories: the animator invariant (values are a fixpoint of the current timeline at the time in state; a remembered pause for another state exists only while the current state is un-animated and the values are a fixpoint of the paused timeline at the remembered position) holds initially and is preserved by every operation; under it and the blend law of each timeline (preserved by start_with) set_state leaves current_values exactly unchanged in both the resume and the blend branch; setting the current state is the identity on the whole record. Holds for the repaired pause bookkeeping (fix ba53243; pre-fix witness in corpus/). Correspondence: histories over 2–5 states from a pool of timeline shapes (finite, delayed, repeating, reversing, infinite, merged, none), model-vs-code after every op including the hook snapshot; exact before/after set_state equality on the implementation.",
    note="The blend law (start_with(v) then evaluation at 0 gives v) is a hypothesis of the theorem; it is the property's own scope (built-in easings, distinct positions per property, representable values) and follows at ℚ from C10.start_value_until_delay per property. Trusted: Lean kernel, sampled tie.",
